@@ -1,28 +1,42 @@
 ----------------------------- MODULE Context -----------------------------
 (* C10: a build's result is a function of the files and options only.  The context a build
    runs in -- hash seed, the order in which the files are listed, which builds ran earlier in
-   the same interpreter -- is state that no action of the build reads.  The specification
-   defines that configuration space (TLC enumerates it and emits every configuration) and the
-   non-interference statement checked on the real code by the harness:
-       two Build steps on equal (world, opts) produce equal `result` and equal `written`.
+   the same interpreter and with which options -- is state that no action of the build reads.
+   The specification defines that configuration space (TLC enumerates it and emits every
+   configuration) and the non-interference statement checked on the real code by the harness:
+
+     PriorBuild   an unrelated build executed earlier in the same process (API reuse, daemon
+                  restart of the build), possibly with OTHER options (target version, platform,
+                  strictness): everything a build memoises process-wide must be keyed by what it
+                  depends on, or reset at build start
+     Build        the measured build, empty cache: prints `result`, writes `written`
+     WarmBuild    the same build again on the cache it just wrote: every module is fresh, the
+                  diagnostics are replayed from the records (for an import cycle: in the order
+                  the cold build printed them)
+
+   two Build steps on equal (world, opts) produce equal `result` and equal `written`, and the
+   WarmBuild prints what the Build printed.
 *)
 EXTENDS Naturals, Sequences, FiniteSets, TLC, Json
-CONSTANTS Seeds, Worlds, NFiles, MaxPrior
-VARIABLES seed, order, prior, world, result, written, done
-vars == <<seed, order, prior, world, result, written, done>>
+CONSTANTS Seeds, Worlds, NFiles, MaxPrior, PriorOpts
+VARIABLES seed, order, prior, world, result, written, warm, phase
+vars == <<seed, order, prior, world, result, written, warm, phase>>
 Perms(n) == {p \in [1..n -> 1..n] : \A i, j \in 1..n : i # j => p[i] # p[j]}
-\* the abstract build: depends on `world` alone
+\* the abstract build: depends on `world` alone (the measured build always runs with the default options)
 F(w) == [diag |-> w, records |-> w]
 Init == /\ seed \in Seeds /\ world \in Worlds /\ order \in Perms(NFiles) /\ prior = <<>>
-        /\ result = "none" /\ written = "none" /\ done = FALSE
-\* an unrelated build executed earlier in the same process (API reuse / daemon restart of the build)
-PriorBuild == /\ ~done /\ Len(prior) < MaxPrior /\ \E w \in Worlds : prior' = Append(prior, w)
-              /\ UNCHANGED <<seed, order, world, result, written, done>>
-Build == /\ ~done /\ result' = F(world).diag /\ written' = F(world).records /\ done' = TRUE
-         /\ UNCHANGED <<seed, order, prior, world>>
-Next == PriorBuild \/ Build
+        /\ result = "none" /\ written = "none" /\ warm = "none" /\ phase = "prior"
+PriorBuild == /\ phase = "prior" /\ Len(prior) < MaxPrior
+              /\ \E w \in Worlds, o \in PriorOpts : prior' = Append(prior, [world |-> w, opts |-> o])
+              /\ UNCHANGED <<seed, order, world, result, written, warm, phase>>
+Build == /\ phase = "prior" /\ result' = F(world).diag /\ written' = F(world).records /\ phase' = "cold"
+         /\ UNCHANGED <<seed, order, prior, world, warm>>
+WarmBuild == /\ phase = "cold" /\ warm' = written /\ phase' = "done"
+             /\ UNCHANGED <<seed, order, prior, world, result, written>>
+Next == PriorBuild \/ Build \/ WarmBuild
 Spec == Init /\ [][Next]_vars
 \* non-interference: the outcome is determined by the world
-Deterministic == done => (result = F(world).diag /\ written = F(world).records)
-Emit == done => PrintT(<<"CFG", ToJson([seed |-> seed, order |-> order, prior |-> prior, world |-> world])>>)
+Deterministic == phase # "prior" => (result = F(world).diag /\ written = F(world).records)
+WarmSame == phase = "done" => warm = result
+Emit == phase = "done" => PrintT(<<"CFG", ToJson([seed |-> seed, order |-> order, prior |-> prior, world |-> world])>>)
 ==========================================================================
